@@ -12,6 +12,7 @@ type Pool struct {
 	cancel context.CancelFunc
 
 	runM      sync.Mutex
+	stopM     sync.Mutex
 	lazySendM sync.Mutex
 	listM     sync.Mutex
 
@@ -26,7 +27,13 @@ type Pool struct {
 }
 
 func New(options Options) *Pool {
+	// Until the first Run the pool behaves as a stopped one: Send drops its event.
+	ctx, cancel := context.WithCancel(context.Background())
+	cancel()
+
 	return &Pool{
+		ctx:    ctx,
+		cancel: cancel,
 		opts: Options{
 			NumWorkers:   max(options.NumWorkers, minNumWorkers),
 			SendDuration: max(options.SendDuration, minSendDuration),
